@@ -23,7 +23,7 @@ pub tracked struct VpFs {
     /// text of `<root>/manifest.toml`; None = absent
     pub ghost manifest: Option<Seq<char>>,
     /// store-relative path -> bytes of the regular files below `<root>/fragments`
-    pub ghost blobs: Map<Seq<char>, Seq<u8>>,
+    pub ghost blobs: IMap<Seq<char>, Seq<u8>>,
     /// history: what the last `read_to_string(manifest.toml)` delivered (None = io error / absent)
     pub ghost last_manifest_read: Option<Seq<char>>,
     /// history: what the last `fs::read(blob)` delivered (None = io error / absent)
@@ -54,17 +54,17 @@ pub open spec fn ev(e: FileEntry) -> EntryV {
 pub open spec fn key_of(s: Seq<char>) -> String { choose|k: String| k@ == s }
 
 /// view of a `BTreeMap<String, FileEntry>`: source path (as characters) -> entry view
-pub open spec fn fv(m: Map<String, FileEntry>) -> Map<Seq<char>, EntryV> {
-    Map::new(|k: Seq<char>| m.contains_key(key_of(k)), |k: Seq<char>| ev(m[key_of(k)]))
+pub open spec fn fv(m: Map<String, FileEntry>) -> IMap<Seq<char>, EntryV> {
+    IMap::new(|k: Seq<char>| m.contains_key(key_of(k)), |k: Seq<char>| ev(m[key_of(k)]))
 }
 
-pub struct ManifestV { pub schema: u32, pub key: Seq<char>, pub files: Map<Seq<char>, EntryV> }
+pub struct ManifestV { pub schema: u32, pub key: Seq<char>, pub files: IMap<Seq<char>, EntryV> }
 pub open spec fn mv(m: Manifest) -> ManifestV { ManifestV { schema: m.schema, key: m.global_key@, files: fv(m.files@) } }
 pub open spec fn omv(o: Option<Manifest>) -> Option<ManifestV> { match o { Some(m) => Some(mv(m)), None => None } }
-pub open spec fn default_mv() -> ManifestV { ManifestV { schema: 0, key: Seq::empty(), files: Map::empty() } }
+pub open spec fn default_mv() -> ManifestV { ManifestV { schema: 0, key: Seq::empty(), files: IMap::empty() } }
 
 /// abstract view of a Store: (saved manifest, entries of the build in progress, flag) — the fields of the real struct
-pub struct StoreV { pub saved: ManifestV, pub next: Map<Seq<char>, EntryV>, pub current: bool }
+pub struct StoreV { pub saved: ManifestV, pub next: IMap<Seq<char>, EntryV>, pub current: bool }
 pub open spec fn sv(s: Store) -> StoreV { StoreV { saved: mv(s.manifest), next: fv(s.next_files@), current: s.on_disk_current } }
 /// the fields that no operation after `open` may touch
 pub open spec fn same_handles(a: Store, b: Store) -> bool { a.root == b.root && a._lock == b._lock }
@@ -87,10 +87,10 @@ pub open spec fn wf(s: Store, fs: VpFs) -> bool {
 }
 
 /// what a (re)open of a disk holding manifest text `t` with key `key` must deliver: (entries, on_disk_current)
-pub open spec fn open_spec(t: Option<Seq<char>>, key: Seq<char>) -> (Map<Seq<char>, EntryV>, bool) {
+pub open spec fn open_spec(t: Option<Seq<char>>, key: Seq<char>) -> (IMap<Seq<char>, EntryV>, bool) {
     match parse_opt(t) {
-        Some(m) => if m.schema == SCHEMA_VERSION && m.key == key { (m.files, true) } else { (Map::empty(), false) },
-        None => (Map::empty(), false),
+        Some(m) => if m.schema == SCHEMA_VERSION && m.key == key { (m.files, true) } else { (IMap::empty(), false) },
+        None => (IMap::empty(), false),
     }
 }
 
@@ -113,6 +113,14 @@ pub open spec fn blob_decode(data: Seq<u8>) -> Option<Seq<u8>> {
     }
 }
 pub open spec fn obv(o: Option<Vec<u8>>) -> Option<Seq<u8>> { match o { Some(v) => Some(v@), None => None } }
+
+/// postcondition of a blob read at store-relative path `rel`: the files on disk are untouched; if the read delivered bytes
+/// they are the bytes of that file and the result is their decoding, otherwise (io error / absent) the result is a miss
+pub open spec fn read_post(old_fs: VpFs, fin: VpFs, r: Option<Vec<u8>>, rel: Seq<char>) -> bool {
+    &&& fs_same_files(fin, old_fs) && fin.last_manifest_read == old_fs.last_manifest_read
+    &&& obv(r) == (match fin.last_blob_read { Some(d) => blob_decode(d), None => None })
+    &&& fin.last_blob_read is Some ==> old_fs.blobs.contains_key(rel) && old_fs.blobs[rel] == fin.last_blob_read.unwrap()
+}
 
 proof fn lemma_le32_roundtrip(x: u32)
     ensures from_le32(le32(x)) == x, le32(x).len() == 4,
@@ -235,7 +243,7 @@ pub proof fn lemma_fv_insert(m: Map<String, FileEntry>, k: String, e: FileEntry)
 }
 
 pub proof fn lemma_fv_empty()
-    ensures fv(Map::<String, FileEntry>::empty()) =~= Map::<Seq<char>, EntryV>::empty(),
+    ensures fv(Map::<String, FileEntry>::empty()) =~= IMap::<Seq<char>, EntryV>::empty(),
 {}
 
 pub proof fn lemma_fv_contains(m: Map<String, FileEntry>, k: String)
@@ -255,8 +263,8 @@ pub proof fn lemma_reopen_same_key(s: Store, fs: VpFs)
 pub proof fn lemma_reopen_other_key(t: Option<Seq<char>>, key: Seq<char>)
     ensures
         (parse_opt(t) is Some && (parse_opt(t).unwrap().key != key || parse_opt(t).unwrap().schema != SCHEMA_VERSION))
-            ==> open_spec(t, key) == (Map::<Seq<char>, EntryV>::empty(), false),
-        parse_opt(t) is None ==> open_spec(t, key) == (Map::<Seq<char>, EntryV>::empty(), false),
+            ==> open_spec(t, key) == (IMap::<Seq<char>, EntryV>::empty(), false),
+        parse_opt(t) is None ==> open_spec(t, key) == (IMap::<Seq<char>, EntryV>::empty(), false),
 {}
 
 // ---- trusted stand-ins for derives ---------------------------------------------------------------------------
